@@ -26,6 +26,9 @@ SCRATCH_A = ['# one #\n', '###### six ######\n', '## two ##\n', 'Setext\n===\n',
 LIST_SHAPES = ['-\n\n- b\n', '- a\n-\n\n- c\n', '- a\n\n- b\n', '1.\n\n2. b\n', '- a\n-\n', '- x\n-\n\nend\n', '-\n', '- a\n- b\n', '- a\n  - b\n\n  c\n',
                '1. a\n2.\n\n3. c\n', '- a\n\n  b\n- c\n', '- a\n  - b\n\n- c\n', '*\n*\n\n* c\n', '- a\n\n\n- b\n', '> -\n>\n> - b\n', '- > a\n-\n\n- c\n']
 SCRATCH_B = SCRATCH_B + LIST_SHAPES
+# a second document that begins with U+FEFF (a byte order mark read as text) or another invisible character: no special treatment
+# "at the start of a document", because B does not start the combined document
+SCRATCH_B = SCRATCH_B + ['\ufeff# Title\n', '\ufeff> q\n', '\ufeff- i\n', '\ufeff    code\n', '\ufeffpara\n', '\u200b# Title\n', '\u2060- i\n']
 SCRATCH_A = SCRATCH_A + [l + '\npara\n' for l in LIST_SHAPES] + ['> ' + l.replace('\n', '\n> ')[:-2] for l in LIST_SHAPES[:6]]
 
 
@@ -121,6 +124,8 @@ def run(ctx):
         if rng.random() < 0.2:
             a = rng.choice(SCRATCH_A)
             ka = 'scratch'
+        if rng.random() < 0.03:
+            b, kb = rng.choice('\ufeff\u200b\u2060') + b, kb + '-bom'
         check(ctx, a, b, rng.choice(TOKEN_SETS), ka + '+' + kb)
         if k < 2:
             ctx.sample({'a': a, 'b': b})
